@@ -62,7 +62,7 @@ func keysOf(v any) []string {
 
 func c04Body(x *mc.Exec) {
 	soft := x.Choose(2, "impl") == 0
-	selT := x.Choose(21, "selection t")
+	selT := x.Choose(22, "selection t")
 	rdT := x.Choose(6, "reldata t")
 	pos := x.Choose(4, "position")
 	selU := x.Choose(3, "selection u")
@@ -80,6 +80,9 @@ func c04Body(x *mc.Exec) {
 		fields["t"] = []string{"id", "a"}
 	case selT == 18:
 		fields["t"] = []string{"a", "one", "a", "one"}
+	case selT == 21:
+		// unknown names that differ from real ones by case only (incl. Unicode case folding)
+		fields["t"] = []string{"A", "Ab", "ONE", "one\u017f"}
 	case selT == 19:
 		// no entry for t
 	case selT == 20:
@@ -320,6 +323,14 @@ func c04Parsed(x *mc.Exec) {
 		x.Fail("C04:parsed:url", "URL %s rejected: %v", raw, err)
 		return
 	}
+	// the selection in force is the one the URL holds when the document is marshaled:
+	// a handler may narrow (or widen) what the client asked for
+	if edit := x.Choose(17, "selection edited after parsing"); edit > 0 {
+		sel = subsetOf([]string{"a", "ab", "one", "ones"}, edit-1)
+		url.Params.Fields["t"] = append([]string{}, sel...)
+		raw += fmt.Sprintf(" then Params.Fields[t]=%v", sel)
+		x.Render(raw)
+	}
 	r := c04T.NewRes(soft)
 	r.Set("id", "1")
 	r.Set("one", "u1")
@@ -417,7 +428,7 @@ func c04Wide(x *mc.Exec) {
 func init() {
 	Register(&Prop{
 		ID: "C04",
-		Rule: "Engine A, all choices Full, complete product: {soft,struct} x 21 selections for type t (all 16 subsets of its 4 fields, unknown name, 'id', duplicates, no entry, nil map) x 6 relationship-data requests (4 subsets, unknown name, entry for the other type only) x 4 positions (single primary, Resources member, SoftCollection/WrapperCollection member, included) x 3 selections x 2 data requests for the second type (which shares field names with t); plus every non-empty subset obtained through the URL parser in both orders. plus a 12-field type with selections of every size 0..12 in sorted, reversed and interleaved order x 3 data requests. Oracle: set arithmetic on the decoded JSON of every resource object. Every case is a distinct (selection, request, position) combination",
+		Rule: "Engine A, all choices Full, complete product: {soft,struct} x 22 selections for type t (all 16 subsets of its 4 fields, unknown name, 'id', duplicates, no entry, nil map, unknown names differing from real ones by case only) x 6 relationship-data requests (4 subsets, unknown name, entry for the other type only) x 4 positions (single primary, Resources member, SoftCollection/WrapperCollection member, included) x 3 selections x 2 data requests for the second type (which shares field names with t); plus every non-empty subset obtained through the URL parser in both orders, each then marshaled as parsed and after Params.Fields[t] was replaced by every subset. plus a 12-field type with selections of every size 0..12 in sorted, reversed and interleaved order x 3 data requests. Oracle: set arithmetic on the decoded JSON of every resource object. Every case is a distinct (selection, request, position) combination",
 		Harnesses: []Harness{
 			{Name: "C04/doc", Body: c04Body},
 			{Name: "C04/parsed", Body: c04Parsed},
